@@ -1,37 +1,7 @@
-use std::os::fd::{AsRawFd, FromRawFd, OwnedFd};
-use std::time::Duration;
-use tokio::io::{Interest, unix::AsyncFd};
-fn efd() -> OwnedFd { unsafe { OwnedFd::from_raw_fd(libc::eventfd(0, libc::EFD_NONBLOCK | libc::EFD_CLOEXEC)) } }
-fn wr(fd: &OwnedFd) { let v: u64 = 1; unsafe { libc::write(fd.as_raw_fd(), &v as *const u64 as *const _, 8) }; }
-fn rd(fd: &OwnedFd) -> i64 { let mut v: u64 = 0; let r = unsafe { libc::read(fd.as_raw_fd(), &mut v as *mut u64 as *mut _, 8) }; if r < 0 { -1 } else { v as i64 } }
+use std::os::fd::AsRawFd;
 fn main() {
-    let trt = tokio::runtime::Builder::new_current_thread().enable_all().build().unwrap();
-    trt.block_on(async {
-        let fd = efd();
-        let afd = AsyncFd::with_interest(fd, Interest::READABLE).unwrap();
-        // case 1: nothing readable, zero timeout
-        let t0 = std::time::Instant::now();
-        let r = tokio::time::timeout(Duration::ZERO, afd.readable()).await;
-        println!("case1 not readable: {:?} after {:?}", r.is_ok(), t0.elapsed());
-        // case 2: written before the wait, reactor has not turned since
-        wr(afd.get_ref());
-        let t0 = std::time::Instant::now();
-        let r = tokio::time::timeout(Duration::ZERO, afd.readable()).await;
-        println!("case2 written-before: ok={:?} after {:?}", r.is_ok(), t0.elapsed());
-        if let Ok(Ok(mut g)) = r { g.clear_ready(); }
-        println!("read -> {}", rd(afd.get_ref()));
-        // case 3: written, read back (level low) before the reactor turns: edge dropped?
-        wr(afd.get_ref());
-        println!("read -> {}", rd(afd.get_ref()));
-        let r = tokio::time::timeout(Duration::from_millis(30), afd.readable()).await;
-        println!("case3 written+read before turn: ok={:?}", r.is_ok());
-        // case 4: written twice, one readable+clear_ready, no read: does a second readable() complete? (edge: no)
-        wr(afd.get_ref());
-        let mut g = afd.readable().await.unwrap(); g.clear_ready(); drop(g);
-        let r = tokio::time::timeout(Duration::from_millis(30), afd.readable()).await;
-        println!("case4 still readable, no new write, after clear_ready: ok={:?}", r.is_ok());
-        wr(afd.get_ref());
-        let r = tokio::time::timeout(Duration::from_millis(30), afd.readable()).await;
-        println!("case5 new write while level high: ok={:?}", r.is_ok());
-    });
+    let rt = compio_runtime::Runtime::new().unwrap();
+    let fd = rt.as_raw_fd();
+    rt.block_on(async { compio_runtime::time::sleep(std::time::Duration::from_millis(2)).await; });
+    println!("{}", std::fs::read_to_string(format!("/proc/self/fdinfo/{fd}")).unwrap());
 }
